@@ -79,6 +79,14 @@ func checkC16(c *Ctx, r *Report) {
 		}
 		return false
 	})
+
+	// =============================== the cursor the loops advance is what the BMC sees, and the
+	// page it answers with is what the loops read: list index (6 bits) / instance start and
+	// entity (whole bytes) on the wire, record count and IDs off the wire (layouts shared with
+	// C06 and C07)
+	r.Rule("paging-wire-layouts", "the Get Channel Cipher Suites and Get DCMI Sensor Info requests carry the list index / entity, instance and instance start in the specified bytes, undiminished; the responses' chunk, instance count and record IDs are read from the specified bytes", 4)
+	compareSpec(c, r, specsFor(requestSpecs, "GetChannelCipherSuitesReq", "GetDCMISensorInfoReq"), "wire", nil)
+	compareSpec(c, r, specsFor(responseSpecs, "GetChannelCipherSuitesRsp", "GetDCMISensorInfoRsp"), "field", nil)
 }
 
 // checkChunkLoop decides the cipher-suite retrieval loop (shared with C05: it
